@@ -138,7 +138,7 @@ def handlers : List (String × Handler) := [
     pure (exceptToJson (fun (g : GroupInfo) => (g.number : Json)) r)),
   ("getGroups", fun j => do
     let r := getGroups (← parseGroups (← j.getObjVal? "groups")) (← parseFilter (← j.getObjVal? "filter"))
-    pure (okJson (intsToJson (r.map (·.number))))),
+    pure (exceptToJson (fun (l : List GroupInfo) => intsToJson (l.map (·.number))) r)),
   ("sopNumbers", fun j => do
     pure (okJson (Json.bool (sopAcceptsNumbers (← getIntList j "numbers")))))
 ]
